@@ -216,6 +216,14 @@ class Adapter:
     def policy_collide(self, s: Any, env: Any, rng: np.random.Generator, legal: Optional[np.ndarray]) -> Any:
         return None
 
+    def safe_policy(self, name: str, s: Any, env: Any, rng: np.random.Generator, legal: Optional[np.ndarray]) -> Any:
+        """Omniscient policies read whatever the environment under test returned; on a changed tree that may be something
+        they cannot cope with. A policy failure is never a verdict and never a harness error: the caller falls back."""
+        try:
+            return getattr(self, "policy_" + name)(s, env, rng, legal)
+        except Exception:  # noqa: BLE001
+            return None
+
     # ---- helpers ---------------------------------------------------------------------------
     def pick(self, mask: np.ndarray, rng: Optional[np.random.Generator], how: str = "uniform") -> Tuple[Any, bool]:
         """Choose an action whose mask entry is True. Returns (action, forced) where forced is
